@@ -1101,6 +1101,15 @@ class Gen:
         body = whole[(2 if fallible else 1):-1]
         body = apply_replacements(body, extra.get("repls", []), item)
         body = apply_befores(body, extra.get("befores", []), item)
+        for a_, b_, note_ in extra.get("rewrites_all", []):
+            if a_ not in body:
+                raise AnchorLost("%s: expression %r not found" % (item.ident, a_))
+            body = body.replace(a_, b_)
+            item.rewrites.append({"old": a_, "new": b_, "note": "std-equivalent (all occurrences): " + note_})
+        for recv_, ty_, inv_ in extra.get("map_collects", []):
+            body = desugar_map_collect(body, recv_, ty_, inv_, item)
+        for recv in extra.get("desugars", []):
+            body = desugar_option_map(body, recv, item)
         for bind, ty in extra.get("annotates", []):
             pat = re.compile(re.escape(bind) + r"\s*=")
             ms = list(pat.finditer(body))
